@@ -19,6 +19,7 @@ func main() {
 		n = 3000
 	}
 	rng := wh.NewRng(a.Seed)
+	gc.EmitProd = true // registry + subscription streams together against the composition M_prod
 	f := gc.Focus{Blocking: 200, Persistent: 1000, Cancel: 60, Hold: 0, Nested: 0, Late: 800, CloseRace: 0, MaxSubs: 4, MaxPubs: 3, MaxMsgs: 6}
 	emit := func(sc gc.Scenario) bool {
 		out.Begin(sc.Describe())
